@@ -141,7 +141,7 @@ def inlined(F, body, pred, depth=2, _stack=()):
         for i, a in enumerate(t["args"]):
             binds.append({"k": "assign", "pl": {"l": lo + 1 + i, "p": []}, "rv": {"k": "use", "op": a}, "span": t.get("span")})
         blocks[bi]["stmts"] = blocks[bi]["stmts"] + binds
-        blocks[bi]["term"] = {"k": "goto", "target": bo, "inlined_call": c.get("path"), "span": t.get("span")}
+        blocks[bi]["term"] = {"k": "goto", "target": bo, "inlined_call": c.get("path"), "inlined_args": t["args"], "span": t.get("span")}
         changed = True
     if not changed:
         return body
